@@ -282,7 +282,14 @@ class HierarchicalSorting(TermIdSorting, metaclass=abc.ABCMeta):
         """
         assert len(source) == len(ordered)
 
-        return tuple(source.index(s) for s in ordered)
+        # Hand out the positions of each term ID in the order of appearance, so that repeated term IDs
+        # are mapped to distinct positions.
+        positions = {}
+        for i, s in enumerate(source):
+            positions.setdefault(s, []).append(i)
+        cursors = {s: iter(idxs) for s, idxs in positions.items()}
+
+        return tuple(next(cursors[s]) for s in ordered)
 
 
 class HierarchicalEdgeTermIdSorting(HierarchicalSorting):
